@@ -7,7 +7,7 @@
    collision of the primitive (collision freedom is never assumed).  PARTIAL: that the structure hash binds names
    (rename => structure hash changes) is exercised by the metamorphic correspondence runs only. *)
 From Coq Require Import Permutation.
-From MHL Require Import Model.Commands Proofs.BaseFacts Proofs.CodecFacts Proofs.DirHashFacts Proofs.SensFacts.
+From MHL Require Import Model.Commands Proofs.BaseFacts Proofs.CodecFacts Proofs.DirHashFacts Proofs.SensFacts Proofs.StructFacts.
 
 Theorem C07_is_definition_over_visible_entries : forall Hb matches C spec f t p,
   dirhash Hb matches C spec f p t = vhash Hb f (prune matches C spec p t).
@@ -62,3 +62,31 @@ Qed.
 Example C07_example_defined :
   exists c s s', vhash toyHb Md5 tA = Some (c, s) /\ vhash toyHb Md5 tB = Some (c, s') /\ s <> s'.
 Proof. vm_compute. do 3 eexists. repeat split. discriminate. Qed.
+
+(* THE STRUCTURE HASH BINDS NAMES: renaming one file or folder at any depth (its content, position and everything else
+   unchanged; names are texts of code points below 2^21, i.e. any Python str) changes the structure hash of every
+   enclosing folder -- or exhibits an explicit collision of the hash primitive.  Uses that the UTF-8 encoder is injective
+   (C07_utf8_injective: UTF-8 is a prefix code), that a structure item is the digest of name bytes ++ fixed-width child
+   digest, and the injectivity of hash_of_hash_list up to permutation. *)
+Theorem C07_utf8_injective : forall t t', Forall valid_cp t -> Forall valid_cp t' -> utf8 t = utf8 t' -> t = t'.
+Proof. exact utf8_inj. Qed.
+Print Assumptions C07_utf8_injective.
+Theorem C07_structure_hash_binds_names : forall Hb, (forall f b, Forall is_byte (Hb f b) /\ length (Hb f b) = width f) ->
+  forall f t t', renamed1 t t' -> forall c s c' s',
+  vhash Hb f t = Some (c, s) -> vhash Hb f t' = Some (c', s') -> s = s' -> collision Hb f.
+Proof. exact struct_sensitive. Qed.
+Print Assumptions C07_structure_hash_binds_names.
+(* ... and for what create records / verify -dh recomputes over the non-ignored entries *)
+Theorem C07_recorded_structure_hash_binds_names : forall Hb matches C, (forall f b, Forall is_byte (Hb f b) /\ length (Hb f b) = width f) ->
+  forall spec f p (d d' : node C) c s c' s',
+  renamed1 (prune matches C spec p d) (prune matches C spec p d') ->
+  dirhash Hb matches C spec f p d = Some (c, s) -> dirhash Hb matches C spec f p d' = Some (c', s') -> s = s' -> collision Hb f.
+Proof. exact dirhash_struct_sensitive. Qed.
+Print Assumptions C07_recorded_structure_hash_binds_names.
+Example C07_renamed1_nonvacuous :
+  renamed1 (VD [([97%N], VF [1%N]); ([98%N], VD [([99%N], VF [2%N])])]) (VD [([97%N], VF [1%N]); ([98%N], VD [([120%N; 233%N], VF [2%N])])]).
+Proof.
+  apply (r_down [([97%N], VF [1%N])] [98%N] (VD [([99%N], VF [2%N])]) (VD [([120%N; 233%N], VF [2%N])]) []).
+  - repeat constructor.
+  - apply (r_here [] [99%N] [120%N; 233%N] (VF [2%N]) []); [discriminate|repeat constructor|repeat constructor].
+Qed.
